@@ -26,7 +26,8 @@ Definition ty := N.         (* 0 INTEGER, 1 BIGINT, 2 TEXT, 3 VARCHAR(20), 4 NUM
 Definition affinity (t:ty) : N := match t with 0 | 1 => 0 | 2 | 3 => 1 | _ => 2 end%N.
 
 Record col := mkCol { c_name : name; c_ty : ty; c_nullable : bool; c_default : option name }.   (* default: the literal text *)
-Inductive ckind := KUnique | KCheck (txt:N) | KFk (rtable:name) (rcols:list name).
+(* KPrimary: a NAMED primary key (it lives in named_constraints); the unnamed one is tb_pk / b_pk *)
+Inductive ckind := KUnique | KCheck (txt:N) | KFk (rtable:name) (rcols:list name) | KPrimary.
 Record con := mkCon { k_name : name; k_kind : ckind; k_cols : list key }.    (* reflected CHECK: no Column objects, k_cols = [] *)
 Record index := mkIndex { x_name : name; x_cols : list key; x_unique : bool }.
 Record tbl := mkTbl { tb_cols : list (key * col); tb_pk : list key; tb_cons : list con; tb_idx : list index }.
@@ -36,7 +37,8 @@ Record transfer := mkTr { tr_expr : option (key * list ty);        (* source col
 
 Record bstate := mkB {
   b_cols : list (key * col); b_tr : list (key * transfer); b_named : list con; b_pk : list key;
-  b_idx : list index; b_newidx : list index; b_order : list (key * key); b_existing : list key }.
+  b_idx : list index; b_newidx : list index; b_order : list (key * key); b_existing : list key;
+  b_flags : list key }.        (* keys of the columns whose Column.primary_key flag is set *)
 
 Inductive berr := EKeyError | EValueError | ECircular | EDuplicateColumn | EOperationalB | ECommandB | EFuelB | EOtherB.
 Inductive bres (A:Type) := BOk (a:A) | BErr (e:berr).
@@ -71,9 +73,15 @@ Fixpoint idx_set (x:index) (l:list index) : list index :=
 Definition idx_del (n:name) (l:list index) : list index := filter (fun x => negb (name_eqb n (x_name x))) l.
 
 (* ------------------------------------------------------------------ __init__ / _grab_table_elements *)
+Definition is_primary (c:con) : bool := match k_kind c with KPrimary => true | _ => false end.
+(* drop_column: _remove_column_from_collection(self.table.primary_key.columns, column) — the table's primary key object
+   is the unnamed one (b_pk) or the named one sitting in named_constraints *)
+Definition pk_drop_col (k:key) (c:con) : con :=
+  if is_primary c then mkCon (k_name c) (k_kind c) (remove_name k (k_cols c)) else c.
 Definition init (T:tbl) : bstate :=
   mkB (tb_cols T) (map (fun p => (fst p, mkTr (Some (fst p, [])) None)) (tb_cols T))
-      (tb_cons T) (tb_pk T) (tb_idx T) [] [] (akeys (tb_cols T)).
+      (tb_cons T) (tb_pk T) (tb_idx T) [] [] (akeys (tb_cols T))
+      (tb_pk T ++ flat_map k_cols (filter is_primary (tb_cons T))).
 
 (* ------------------------------------------------------------------ operations *)
 Record alter := mkAlter { al_name : option name; al_type : option ty; al_nullable : option bool;
@@ -136,15 +144,15 @@ Definition apply_batch_op (o:batch_op) (s:bstate) : bres bstate :=
       match setup_dependencies s k before after with
       | BErr e => BErr e
       | BOk ord => BOk (mkB (aset k c (b_cols s)) (aset k (mkTr None None) (b_tr s)) (b_named s) (b_pk s)
-                            (b_idx s) (b_newidx s) ord (b_existing s))
+                            (b_idx s) (b_newidx s) ord (b_existing s) (b_flags s))
       end
   | ODropColumn k =>
       match aget k (b_cols s) with
       | None => BErr EKeyError
       | Some _ =>
           if mem_name k (b_existing s)
-          then BOk (mkB (adel k (b_cols s)) (adel k (b_tr s)) (b_named s) (remove_name k (b_pk s))
-                        (b_idx s) (b_newidx s) (b_order s) (remove_name k (b_existing s)))
+          then BOk (mkB (adel k (b_cols s)) (adel k (b_tr s)) (map (pk_drop_col k) (b_named s)) (remove_name k (b_pk s))
+                        (b_idx s) (b_newidx s) (b_order s) (remove_name k (b_existing s)) (b_flags s))
           else BErr EValueError                         (* existing_ordering.remove of an added column *)
       end
   | OAlterColumn k a =>
@@ -162,19 +170,22 @@ Definition apply_batch_op (o:batch_op) (s:bstate) : bres bstate :=
           let c2 := match al_type a with Some nt => mkCol (c_name c1) nt (c_nullable c1) (c_default c1) | None => c1 end in
           let c3 := match al_nullable a with Some b => mkCol (c_name c2) (c_ty c2) b (c_default c2) | None => c2 end in
           let c4 := match al_default a with Some d => mkCol (c_name c3) (c_ty c3) (c_nullable c3) d | None => c3 end in
-          BOk (mkB (aset k c4 (b_cols s)) (aset k t2 (b_tr s)) (b_named s) (b_pk s) (b_idx s) (b_newidx s) (b_order s) (b_existing s))
+          BOk (mkB (aset k c4 (b_cols s)) (aset k t2 (b_tr s)) (b_named s) (b_pk s) (b_idx s) (b_newidx s) (b_order s) (b_existing s) (b_flags s))
       | _, _ => BErr EKeyError
       end
-  | OAddConstraint c => BOk (mkB (b_cols s) (b_tr s) (con_set c (b_named s)) (b_pk s) (b_idx s) (b_newidx s) (b_order s) (b_existing s))
+  | OAddConstraint c => BOk (mkB (b_cols s) (b_tr s) (con_set c (b_named s)) (b_pk s) (b_idx s) (b_newidx s) (b_order s) (b_existing s) (b_flags s))
   | ODropConstraint n =>
       match con_get n (b_named s) with
-      | Some _ => BOk (mkB (b_cols s) (b_tr s) (con_del n (b_named s)) (b_pk s) (b_idx s) (b_newidx s) (b_order s) (b_existing s))
+      | Some c =>
+          (* `const = self.named_constraints.pop(name)`; a PrimaryKeyConstraint: its columns lose their primary_key flag *)
+          BOk (mkB (b_cols s) (b_tr s) (con_del n (b_named s)) (b_pk s) (b_idx s) (b_newidx s) (b_order s) (b_existing s)
+                   (if is_primary c then filter (fun k => negb (mem_name k (k_cols c))) (b_flags s) else b_flags s))
       | None => BErr EValueError
       end
-  | OCreateIndex x => BOk (mkB (b_cols s) (b_tr s) (b_named s) (b_pk s) (b_idx s) (idx_set x (b_newidx s)) (b_order s) (b_existing s))
+  | OCreateIndex x => BOk (mkB (b_cols s) (b_tr s) (b_named s) (b_pk s) (b_idx s) (idx_set x (b_newidx s)) (b_order s) (b_existing s) (b_flags s))
   | ODropIndex n =>
       match idx_get n (b_idx s) with
-      | Some _ => BOk (mkB (b_cols s) (b_tr s) (b_named s) (b_pk s) (idx_del n (b_idx s)) (b_newidx s) (b_order s) (b_existing s))
+      | Some _ => BOk (mkB (b_cols s) (b_tr s) (b_named s) (b_pk s) (idx_del n (b_idx s)) (b_newidx s) (b_order s) (b_existing s) (b_flags s))
       | None => BErr EValueError
       end
   end.
